@@ -3,6 +3,7 @@ package exec
 import (
 	"context"
 	"encoding/json"
+	"errors"
 	"fmt"
 	"math"
 	"strconv"
@@ -585,7 +586,7 @@ func (exec *Executor) executeDecimalMethod(
 
 	precision, err := getNodeInt32(node.Left(), op, "precision")
 	if err != nil {
-		return 0, err
+		return 0, decimalArgErr(err)
 	}
 
 	// Verify the precision
@@ -602,7 +603,7 @@ func (exec *Executor) executeDecimalMethod(
 		var err error
 		scale, err = getNodeInt32(right, op, "scale")
 		if err != nil {
-			return 0, err
+			return 0, decimalArgErr(err)
 		}
 
 		// Verify the scale.
@@ -672,6 +673,16 @@ func (exec *Executor) executeDecimalMethod(
 		)
 	}
 	return rounded, nil
+}
+
+// decimalArgErr returns err, raised for a precision or scale of .decimal()
+// that is not an int32, as an error that cannot be suppressed, like the errors
+// for a precision or scale outside the range of NUMERIC.
+func decimalArgErr(err error) error {
+	if errors.Is(err, ErrVerbose) {
+		return fmt.Errorf("%w%v", ErrExecution, strings.TrimPrefix(err.Error(), ErrVerbose.Error()))
+	}
+	return err
 }
 
 // intCallback defines a callback to carry out an operation on an int64.
